@@ -112,6 +112,9 @@ def parseOp? (tok : String) : Option DOp :=
   | ["dl", h, i] => do pure (.op (.del (← h.toNat?) (← i.toNat?)))
   | ["sh", h, i, h2, pos] => do pure (.op (.share (← h.toNat?) (← i.toNat?) (← h2.toNat?) (← pos.toNat?)))
   | ["cp", h] => do pure (.op (.copy (← h.toNat?)))
+  | ["bs", h, t] => do
+      let tgt ← if t = "N" then some none else (parseEndian? t).map some
+      pure (.op (.byteswap (← h.toNat?) tgt))
   | ["fh", h, cls] => do
       let (n, f, sg) ← class? cls
       pure (.op (.fromHeader (← h.toNat?) n f sg))
